@@ -203,6 +203,16 @@ def run(tier, seed):
     chk = core.Check('C05', tier, seed)
     rng = random.Random(seed)
     thorough = tier == 'thorough'
+    valid = corpus(rng)
+
+    def decode_valid(raw):
+        import hashlib
+        try:
+            m = message.parseMessage(raw, [])
+            return {'outcome': 'value', 'digest': hashlib.sha1(repr((m._messageType, m.serial, m.signature, m.body)).encode()).hexdigest()[:12]}
+        except Exception as ex:
+            return {'outcome': 'exception', 'digest': type(ex).__name__}
+    before = [decode_valid(raw) for raw in valid]
     # ---- 1. design level: Bounded holds; the old design (ZeroOK) violates it
     confs = [(5, '0, 1, 4, 8, 255'), (9, '0, 1, 255')] if thorough else [(4, '0, 1, 4, 8, 255'), (9, '0, 1')]
     all_states = []
@@ -238,6 +248,7 @@ def run(tier, seed):
     # ---- 3. code -> spec: mutated real messages and hostile signatures, judged by AcceptableWork in TLC
     recs = []
     descr = []
+    iso = []
     for raw in corpus(rng):
         for name, data in mutations(rng, raw, thorough):
             nsig = 64
@@ -245,11 +256,16 @@ def run(tier, seed):
             out, calls, r = counted(lambda: message.parseMessage(data, []), 4 * b)
             recs.append({'len': len(data), 'siglen': nsig, 'calls': calls, 'outcome': out, 'cpu_ms': 0})
             descr.append((name, data))
+            if len(recs) % 400 == 0:        # a valid message on "another connection", in between
+                j = (len(recs) // 400) % len(valid)
+                iso.append((j, len(recs), {'before': before[j], 'after': decode_valid(valid[j])}))
     for name, raw, nsig in hostile_messages(rng):
         b = bound(len(raw), nsig + 16)
         out, calls, r = counted(lambda: message.parseMessage(raw, []), 4 * b)
         recs.append({'len': len(raw), 'siglen': nsig + 16, 'calls': calls, 'outcome': out, 'cpu_ms': 0})
         descr.append((name, raw))
+    for j in range(len(valid)):
+        iso.append((j, len(recs), {'before': before[j], 'after': decode_valid(valid[j])}))
     # work inside single C calls is invisible to the call counter: the sibling-container family (and the
     # hostile signatures above) is decoded again in a child process under a CPU limit, CPU time recorded
     cc_cases = cpu_cases() + hostile_messages(rng)
@@ -272,6 +288,16 @@ def run(tier, seed):
             name, len(data), recs[ti]['outcome'], recs[ti]['calls'], recs[ti]['cpu_ms']),
                       dict(kind='code->spec', module='c05', mutation=name, data=list(data[:400]), rec=recs[ti]))
     chk.sample({'mutation': descr[len(descr) // 2][0], 'rec': recs[len(descr) // 2]})
+    # isolation: hostile inputs leave nothing behind that changes how valid messages decode
+    itr = [[({'n': 'Init'}, {'rec': r})] for _, _, r in iso]
+    rej, stt = core.validate_traces('MC_Decoder', OBS, itr, {}, cfg_consts=cc, initpred='Dummy /\\ TraceIsolated', nproc=2)
+    chk.states += stt['states']
+    chk.transitions += stt['transitions']
+    chk.notes['isolation_probes'] = len(iso)
+    for ti, _, _ in rej[:3]:
+        j, after_n, r = iso[ti]
+        chk.violation('valid message %d decodes differently after %d hostile inputs were decoded in the same process: %r -> %r' % (
+            j, after_n, r['before'], r['after']), dict(kind='code->spec isolation', module='c05', rec=r, after_hostile_inputs=after_n))
     # ---- canary
     bad = dict(recs[0], outcome='budget')
     rej, _ = core.validate_traces('MC_Decoder', OBS, [[({'n': 'Init'}, {'rec': bad})]], {}, cfg_consts=cc,
@@ -287,5 +313,6 @@ def run(tier, seed):
              'InData; the ZeroOK deviation must violate Bounded); the implementation decodes the same inputs and '
              'every truncation / bit flip / length lie of a message corpus plus grammar-directed hostile signatures '
              'under a call counter, and grammar-directed sibling-container signatures in a CPU-limited child process; TLC '
-             'judges the recorded work (calls, CPU time) against the linear bound',
+             'judges the recorded work (calls, CPU time) against the linear bound; valid messages are decoded again in '
+             'between and afterwards and must decode as before (isolation)',
         exhaustive=False)
